@@ -78,6 +78,17 @@ CHECKS = {
              "pairs (260 seeded quick / all 780 thorough), seeded subsets up to all 40, permutations of 6 sections, LF/CRLF x BOM x entry point, unknown sections at every position, each required "
              "section removed, seeded bodies of 0-15 lines per section: every record is judged by TLC evaluating Props!C06V against the format's own routing table.",
         design="5 (C06)", technique="TLA+ model checking (TLC) of the scanner + spec->code replay + TLC trace validation of routing / independence records"),
+    "C13": dict(
+        text="TLC model-checks the routing loop ChartRoute.tla (Route / SkipUnwanted; poison bodies matter only if parsed) for every ordered subset of 3/4 track headers x every poison set x every selection "
+             "(none, every subset incl. absent keys); every terminal state is replayed on real charts (same-instrument / other-difficulty headers, selection passed as list / tuple / with duplicates) and judged by TLC "
+             "evaluating Props!C13V: exactly the selected existing tracks, each digest-identical to the unrestricted parse of the file with the poison bodies replaced by other content, metadata / sync / global unchanged; "
+             "seeded subsets of all 40 headers with seeded selections.",
+        design="5 (C13)", technique="TLA+ model checking (TLC) of the routing loop + spec->code replay + TLC trace validation"),
+    "C14": dict(
+        text="TLC model-checks the first-match dispatcher Dispatch.tla (TryKind / Claim / Skip) for every section of <= 4/5 lines and every order of trying kinds: conservation, file order, order independence for disjoint recognisers "
+             "(the overlapping variant is shown to violate it); every line sequence is replayed as an instrument, a sync and an events section with junk drawn from foreign-section lines, unsupported indices, malformed lines; "
+             "TLC judges per-kind claimed line indices, one report per unparsable line naming it, claimed + reported = body lines, and digest equality with the junk-free section (Props!C14V); seeded noisy sections up to 30 lines.",
+        design="5 (C14)", technique="TLA+ model checking (TLC) of the dispatcher + spec->code replay + TLC trace validation"),
 }
 
 PENDING = {}
